@@ -19,6 +19,7 @@ use crate::fri::proof::{
 use crate::fri::structure::{
     FriOpeningBatch, FriOpeningBatchTarget, FriOpenings, FriOpeningsTarget,
 };
+use crate::fri::validate_shape::validate_compressed_fri_proof_shape;
 use crate::fri::FriParams;
 use crate::hash::hash_types::{MerkleCapTarget, RichField};
 use crate::hash::merkle_tree::MerkleCap;
@@ -26,6 +27,7 @@ use crate::iop::ext_target::ExtensionTarget;
 use crate::iop::target::Target;
 use crate::plonk::circuit_data::{CommonCircuitData, VerifierOnlyCircuitData};
 use crate::plonk::config::{GenericConfig, Hasher};
+use crate::plonk::validate_shape::validate_compressed_proof_with_pis_shape;
 use crate::plonk::verifier::verify_with_challenges;
 use crate::util::serialization::{Buffer, Read, Write};
 
@@ -152,7 +154,7 @@ impl<F: RichField + Extendable<D>, C: GenericConfig<D, F = F>, const D: usize>
         challenges: &ProofChallenges<F, D>,
         fri_inferred_elements: FriInferredElements<F, D>,
         params: &FriParams,
-    ) -> Proof<F, C, D> {
+    ) -> anyhow::Result<Proof<F, C, D>> {
         let CompressedProof {
             wires_cap,
             plonk_zs_partial_products_cap,
@@ -161,13 +163,13 @@ impl<F: RichField + Extendable<D>, C: GenericConfig<D, F = F>, const D: usize>
             opening_proof,
         } = self;
 
-        Proof {
+        Ok(Proof {
             wires_cap,
             plonk_zs_partial_products_cap,
             quotient_polys_cap,
             openings,
-            opening_proof: opening_proof.decompress(challenges, fri_inferred_elements, params),
-        }
+            opening_proof: opening_proof.decompress(challenges, fri_inferred_elements, params)?,
+        })
     }
 }
 
@@ -190,12 +192,19 @@ impl<F: RichField + Extendable<D>, C: GenericConfig<D, F = F>, const D: usize>
         circuit_digest: &<<C as GenericConfig<D>>::Hasher as Hasher<C::F>>::Hash,
         common_data: &CommonCircuitData<F, D>,
     ) -> anyhow::Result<ProofWithPublicInputs<F, C, D>> {
+        validate_compressed_proof_with_pis_shape(&self, common_data)?;
         let challenges =
             self.get_challenges(self.get_public_inputs_hash(), circuit_digest, common_data)?;
+        validate_compressed_fri_proof_shape::<F, C, D>(
+            &self.proof.opening_proof,
+            &challenges.fri_challenges.fri_query_indices,
+            &common_data.get_fri_instance(challenges.plonk_zeta),
+            &common_data.fri_params,
+        )?;
         let fri_inferred_elements = self.get_inferred_elements(&challenges, common_data);
         let decompressed_proof =
             self.proof
-                .decompress(&challenges, fri_inferred_elements, &common_data.fri_params);
+                .decompress(&challenges, fri_inferred_elements, &common_data.fri_params)?;
         Ok(ProofWithPublicInputs {
             public_inputs: self.public_inputs,
             proof: decompressed_proof,
@@ -211,16 +220,23 @@ impl<F: RichField + Extendable<D>, C: GenericConfig<D, F = F>, const D: usize>
             self.public_inputs.len() == common_data.num_public_inputs,
             "Number of public inputs doesn't match circuit data."
         );
+        validate_compressed_proof_with_pis_shape(&self, common_data)?;
         let public_inputs_hash = self.get_public_inputs_hash();
         let challenges = self.get_challenges(
             public_inputs_hash,
             &verifier_data.circuit_digest,
             common_data,
         )?;
+        validate_compressed_fri_proof_shape::<F, C, D>(
+            &self.proof.opening_proof,
+            &challenges.fri_challenges.fri_query_indices,
+            &common_data.get_fri_instance(challenges.plonk_zeta),
+            &common_data.fri_params,
+        )?;
         let fri_inferred_elements = self.get_inferred_elements(&challenges, common_data);
         let decompressed_proof =
             self.proof
-                .decompress(&challenges, fri_inferred_elements, &common_data.fri_params);
+                .decompress(&challenges, fri_inferred_elements, &common_data.fri_params)?;
         verify_with_challenges::<F, C, D>(
             decompressed_proof,
             public_inputs_hash,
